@@ -626,6 +626,77 @@ func init() {
 		}})
 }
 
+// the small helpers the packing is built from, by their definitions
+func init() {
+	register(scenario{name: "atlas:uvmap-helpers", procs: 1, prop: "C18", about: "Bounds2D, ToBounds, Area3D, JoinMeshUVMaps, NewMeshUVMapForCoords",
+		want: func() string { return "ok" },
+		body: func() string {
+			t1 := &model3d.Triangle{model3d.XYZ(0, 0, 0), model3d.XYZ(2, 0, 0), model3d.XYZ(0, 1, 0)}
+			t2 := &model3d.Triangle{model3d.XYZ(2, 0, 0), model3d.XYZ(2, 1, 3), model3d.XYZ(0, 1, 0)}
+			t3 := &model3d.Triangle{model3d.XYZ(5, 5, 5), model3d.XYZ(6, 5, 5), model3d.XYZ(5, 7, 5)}
+			a := model3d.MeshUVMap{t1: {model2d.XY(-1, 2), model2d.XY(3, 2.5), model2d.XY(-0.5, 4)}, t2: {model2d.XY(3, 2.5), model2d.XY(2, 6), model2d.XY(-0.5, 4)}}
+			b := model3d.MeshUVMap{t3: {model2d.XY(10, 10), model2d.XY(11, 10), model2d.XY(10, 12)}, t1: {model2d.XY(0, 0), model2d.XY(1, 0), model2d.XY(0, 1)}}
+			lo, hi := a.Bounds2D()
+			if lo != model2d.XY(-1, 2) || hi != model2d.XY(3, 6) {
+				return fmt.Sprintf("VIOLATION helpers: Bounds2D = %v..%v, the coordinates span (-1,2)..(3,6)", lo, hi)
+			}
+			if got, want := a.Area3D(), t1.Area()+t2.Area(); !(math.Abs(got-want) <= 1e-12) {
+				return fmt.Sprintf("VIOLATION helpers: Area3D = %g, the faces have %g", got, want)
+			}
+			for _, tg := range [][2]model2d.Coord{{model2d.XY(0, 0), model2d.XY(1, 1)}, {model2d.XY(-3, 0.5), model2d.XY(-1, 0.75)}, {model2d.XY(2, 2), model2d.XY(2.5, 9)}} {
+				nb := a.ToBounds(tg[0], tg[1])
+				if len(nb) != len(a) {
+					return "VIOLATION helpers: ToBounds changed the number of faces"
+				}
+				for k, v := range a {
+					w, ok := nb[k]
+					if !ok {
+						return "VIOLATION helpers: ToBounds lost a face"
+					}
+					for i := 0; i < 3; i++ {
+						want := model2d.XY(tg[0].X+(v[i].X-lo.X)/(hi.X-lo.X)*(tg[1].X-tg[0].X), tg[0].Y+(v[i].Y-lo.Y)/(hi.Y-lo.Y)*(tg[1].Y-tg[0].Y))
+						if !(w[i].Dist(want) <= 1e-12) {
+							return fmt.Sprintf("VIOLATION helpers: ToBounds(%v,%v) sends %v to %v, the affine map of the box gives %v", tg[0], tg[1], v[i], w[i], want)
+						}
+					}
+				}
+				if l2, h2 := nb.Bounds2D(); !(l2.Dist(tg[0]) <= 1e-12) || !(h2.Dist(tg[1]) <= 1e-12) {
+					return fmt.Sprintf("VIOLATION helpers: after ToBounds(%v,%v) the bounds are %v..%v", tg[0], tg[1], l2, h2)
+				}
+				if l3, h3 := a.Bounds2D(); l3 != lo || h3 != hi {
+					return "VIOLATION helpers: ToBounds changed its receiver"
+				}
+			}
+			j := model3d.JoinMeshUVMaps(a, b)
+			if len(j) != 3 || j[t2] != a[t2] || j[t3] != b[t3] || j[t1] != b[t1] {
+				return "VIOLATION helpers: JoinMeshUVMaps is not the union of the maps (later maps winning)"
+			}
+			if len(a) != 2 || len(b) != 2 || a[t1][0] != model2d.XY(-1, 2) {
+				return "VIOLATION helpers: JoinMeshUVMaps changed an argument"
+			}
+			m := model3d.NewMesh()
+			m.Add(t1)
+			m.Add(t2)
+			cm := model3d.NewCoordMap[model2d.Coord]()
+			for _, t := range []*model3d.Triangle{t1, t2} {
+				for _, c := range t {
+					cm.Store(c, model2d.XY(c.X+10*c.Z, c.Y-c.X))
+				}
+			}
+			fc := model3d.NewMeshUVMapForCoords(m, cm)
+			for _, t := range []*model3d.Triangle{t1, t2} {
+				v, ok := fc[t]
+				for i := 0; ok && i < 3; i++ {
+					ok = v[i] == model2d.XY(t[i].X+10*t[i].Z, t[i].Y-t[i].X)
+				}
+				if !ok || len(fc) != 2 {
+					return "VIOLATION helpers: NewMeshUVMapForCoords does not give every corner its vertex's coordinate"
+				}
+			}
+			return "ok"
+		}})
+}
+
 // packing of k separate one-triangle charts of similar area into square, tall, wide and offset rectangles: every
 // node shape of the quad tree (1, 2, 3, 4 charts and deeper) in every aspect ratio
 func init() {
